@@ -25,6 +25,7 @@ import (
 const prop = "C01"
 
 func TestMain(m *testing.M) {
+	evid.QuietStderr()
 	evid.Main(m, prop, "exploration",
 		"rapid state machine: a backend configuration tree (depth<=3) drawn from the grammar memory|verif|localdisk|diskpacked[maxFileSize]|blobpacked|encrypt|replica|shard|cond|overlay|namespace|proxycache[evicting cache]|union, "+
 			"built through blobserver.CreateStorage; then up to 40 (quick) / 120 (thorough) operations receive(verified/direct, 5 reader kinds)/receiveDup/fetch/subfetch/stat(batch)/enumerate(any-string cursor, limit)/pageAll/remove(batch)/reopen over a pool of 4-12 blobs (empty, 1 byte, schema, non-schema JSON, small, KiB, 64KiB, 1MiB; sha1/sha224/sha256), "+
